@@ -170,7 +170,16 @@ def equal_callbacks():
     a.seen, b.seen = [], []
     st = C.make_state("positive", 2, 2, 1)
     st.fit(torch.zeros(4, 2, dtype=torch.double), epochs=2, pos_batch_size=2, callbacks=[a, b, a])
+    # a handler that returns a value (a lambda around file.write, say) in front of the others
+    from qucumber.callbacks import LambdaCallback
+    c2 = Counter(7)
+    c2.seen = []
+    st2 = C.make_state("positive", 2, 2, 1)
+    st2.fit(torch.zeros(4, 2, dtype=torch.double), epochs=2, pos_batch_size=2, time=True,
+            callbacks=[LambdaCallback(on_epoch_end=lambda s, e: e, on_train_end=lambda s: "bye", on_batch_end=lambda s, e, b: [b]), c2])
     want = [("epoch_end", 1), ("epoch_end", 2), ("train_end",)]
+    if c2.seen != want:
+        return ["a callback listed after one whose handlers return values saw %s instead of the whole run" % (c2.seen,)]
     f = []
     if b.seen != want:
         f.append("a callback that compares equal to an earlier one saw %s instead of the whole run" % (b.seen,))
